@@ -50,6 +50,10 @@ def generate(seed, tier):
         if rng.random() < 0.4:
             block['ics'].append([an, repr(float(rng.randint(-9, 9)))])
     if S['swarm'].random() < 0.08:
+        # a reporting variable defined through a user function (registered with AddFunction) on inputs known at k=0
+        block['exo'].append(['uzx', '[%s]*%d' % (repr(rng.choice([3.0, 0.5, 12.0])), T + 2)])
+        block['eqs'].append(['uz', rng.choice(['tick(uzx) + 1.0', '2.0*tick(uzx)', 'tick(uzx + 1.0)'])])
+    if S['swarm'].random() < 0.08:
         # an alias whose name looks like the tail of a float literal (e2, E, e0) next to literals written with a bare
         # decimal point before the exponent (2.e2, 1.E-1): substitution works on whole tokens, not on text
         tgt = pool[rng.randrange(len(pool))]
